@@ -69,27 +69,31 @@ CLAIMED = {
  "C09": ("proof",
   "Lean 4: refinement of thread.go's status/caller model to the Lua coroutine status machine over all histories; "
   "generic interleaving theorems for every family of event programs obeying a decidable hand-off discipline, with the "
-  "event order of thread.go regenerated (go/ast) and re-checked on every run; exhaustive + random coroutine scripts on "
-  "golua validated against the spec; race detector as supporting evidence",
-  "Props/C09.lean, all histories of Model.CoSeq (status, caller, closeErr, close stack as in Resume/Yield/Close/end): "
+  "event order of thread.go regenerated (go/ast) and re-checked on every run; deadlock freedom of data + event order "
+  "together for arbitrary scripts and schedules; exhaustive + random coroutine scripts on golua validated against the "
+  "spec; race detector as supporting evidence",
+  "Props/C09.lean.  (1) All histories of Model.CoSeq (status, caller, closeErr, close stack as in Resume/Yield/Close/end): "
   "status_chain_inv, resume_only_suspended, close_only_suspended_or_dead, error_kills_and_delivers, "
-  "values_transferred_exactly (CoSeq refines Spec.Co event-for-event), no_protocol_panic — full.  Interleaving model "
-  "Model.CoProto (any number of goroutines, any schedule; lock/unlock/send/recv rendezvous/touch/run events), for EVERY "
-  "family of event programs obeying the decidable discipline Disc: baton_unique, no_lock_deadlock, stuck_goroutines_parked "
-  "— full; table_programs_obey_disc/baton_unique_of_table (every program assembled from an event table that passes "
-  "discTable obeys Disc) — full; no_deadlock_partial (a stuck state is 'main finished' or 'baton holder sends on a channel "
-  "nobody receives on'; that thread.go's sends always find their receiver is NOT proved, it rests on the status checks "
-  "and is covered by the watchdog correspondence only).  Per-run obligations over Generated/ThreadEvents.lean by decide: "
-  "threadEvents_disc_residual (only the two known violations, both in Thread.end), threadEvents_proposed_disc, "
-  "threadEvents_known_present_or_disc, threadEvents_no_unclassified.  thread.go's end does NOT obey the discipline today: "
-  "baton_unique_counterexample (race) and no_deadlock_counterexample (self-deadlock) are proved schedules; both are "
-  "known findings.  Correspondence (level A): every script of <= 4 (quick) / <= 5 (thorough) actions over <= 3 "
-  "coroutines + random longer ones, traces with values, statuses, goroutine deltas and a deadlock watchdog, compared "
-  "with Spec.Co through the compiled oracle.",
+  "control_returns_to_resumer, values_transferred_exactly (CoSeq refines Spec.Co event-for-event), no_protocol_panic. "
+  "(2) Model.CoProto (any number of goroutines, any schedule; lock/unlock/send/recv rendezvous/touch/run events), for EVERY "
+  "family of event programs obeying the decidable discipline Disc: baton_unique, no_lock_deadlock, "
+  "dead_thread_goroutine_terminates, stuck_goroutines_parked, no_deadlock_partial; table_programs_obey_disc / "
+  "baton_unique_of_table (every program assembled from an event table that passes discTable obeys Disc); per-run "
+  "obligations over Generated/ThreadEvents.lean by decide: threadEvents_disc (the regenerated table obeys Disc), "
+  "threadEvents_own_recv, threadEvents_no_unclassified, threadEvents_paths, hence threadEvents_baton_unique for thread.go "
+  "as it is in the tree.  (3) Model.CoSys (CoSeq's data and CoProto's events together, arbitrary scripts per thread incl. "
+  "what close handlers do, any number of threads, any schedule): no_deadlock — some goroutine can always step until the "
+  "main thread's code has ended; every send finds its receiver parked.  All full, no _partial left except the generic "
+  "no_deadlock_partial kept for arbitrary Disc families.  Correspondence (level A): every script of <= 4 (quick) / <= 5 "
+  "(thorough) actions over <= 3 coroutines + random longer ones, traces with values, statuses, goroutine deltas and a "
+  "deadlock watchdog, compared with Spec.Co through the compiled oracle.",
   "Trusted/assumed: Go's memory model, channels as rendezvous, mutexes, scheduler fairness; the extractor "
-  "(extract/threadevents) and its classification of calls into touch/run; goroutine termination is observed "
-  "(runtime.NumGoroutine), not proved; the -race/GOMAXPROCS runs of the thorough tier sample schedules and are "
-  "supporting evidence only.  Whether to-be-closed handlers of a quota-killed coroutine run is left open.", "6/C09"),
+  "(extract/threadevents) and its classification of calls into touch/run; CoSys applies a procedure's writes at its entry "
+  "(sound because only the baton holder touches thread data) and ties its literal paths to the regenerated table "
+  "(threadEvents_paths: a reordering of thread.go, even a harmless one, needs the model updated); goroutine termination is "
+  "observed (runtime.NumGoroutine), not proved; the -race/GOMAXPROCS runs of the thorough tier sample schedules and are "
+  "supporting evidence only.  Whether to-be-closed handlers of a quota-killed coroutine run is left open.  Known finding: "
+  "pcall frames on the runtime-wide context stack (kill escapes after a yield across pcall).", "6/C09"),
  "C10": ("proof",
   "Lean 4 compiler-correctness theorem for the to-be-closed machinery (static close-stack heights of ir/builder.go + run-time close stack) against a big-step "
   "semantics of manual 3.3.8, for every program of a block-structured mini-language and every handler behaviour; tied to golua by event-log correspondence and by "
@@ -122,11 +126,13 @@ CLAIMED = {
  "C18": ("proof",
   "Lean 4 invariant proofs over hand-written state-machine models of clonepool.go and of its call sites + level-A/B "
   "correspondence on the real ClonePool/Runtime through a deterministic Go-finaliser hook + Lua-level logs under the real collector",
-  "Theorems in Props/C18.lean (at-most-once per marking epoch, release once and after finalise, reverse marking order, re-mark "
-  "resets order, killed contexts release without finalising) hold for ALL event histories of Model.ClonePool/GcRuntime; "
-  "exactly-once-by-close and never-finalised-while-reachable are proved `_partial` with `_counterexample`s replayed on the code "
-  "(three known findings).  The models are tied to runtime/internal/luagc/clonepool.go, runtime.go, thread.go, "
-  "runtimecontextmanager.go by per-op diffs on ~170k (quick) / ~4.9M (thorough) histories.",
+  "Theorems in Props/C18.lean (at-most-once per marking epoch, EXACTLY once by close / by the end of an isolating context, "
+  "release once and after finalise, reverse marking order, re-mark resets order, killed contexts release without finalising) "
+  "hold for ALL event histories of Model.ClonePool/GcRuntime; never-finalised-while-reachable is proved `_partial` with a "
+  "`_counterexample` replayed on the code; two known findings remain (SetFinalizer throw when a value is marked in two "
+  "contexts' pools; re-finalisation through a clone of an escaped value).  The models are tied to "
+  "runtime/internal/luagc/clonepool.go, runtime.go, thread.go, runtimecontextmanager.go by per-op diffs on ~170k (quick) / "
+  "~4.9M (thorough) histories.",
   "Trusted: Lean kernel; the hand-written models (tie = correspondence only); Go's collector modelled as an environment that "
   "fires finalisers only for unreferenced registered objects; runtime.SetFinalizer's double-set throw modelled as `fatal`; "
   "UnsafePool/SafePool not modelled; resource accounting of finalisers is C05/C06.", "6/C18"),
